@@ -7,6 +7,15 @@ open Ckl
 
 variable {s0 : State}
 
+theorem Tr.dateResM (r : DateRes) (pos : Pos) : Tr s0 (dateResM r pos) := by
+  unfold Ckl.dateResM; tr_auto
+macro_rules | `(tactic| tr_lemma) => `(tactic| exact Tr.dateResM _ _)
+
+theorem Tr.callDate (name : String) (args : List (String × RVal)) (pos : Pos) (m : EvalM RVal)
+    (h : callDate name args pos = some m) : Tr s0 m := by
+  unfold Ckl.callDate at h
+  split at h <;> first | (injection h with h; subst h; exact Tr.dateResM _ _) | (cases h)
+
 theorem Tr.nativeAdd (a b : RVal) (pos : Pos) : Tr s0 (nativeAdd a b pos) := by
   unfold Ckl.nativeAdd; tr_auto
 macro_rules | `(tactic| tr_lemma) => `(tactic| exact Tr.nativeAdd _ _ _)
@@ -33,7 +42,7 @@ theorem Tr.callPure (name : String) (args : List (String × RVal)) (d : Option R
     (m : EvalM RVal) (h : callPure name args d pos = some m) : Tr s0 m := by
   unfold Ckl.callPure at h
   split at h
-  all_goals (cases h)
+  all_goals first | (cases h) | (exact Tr.callDate _ _ _ _ h)
   all_goals tr_auto
 
 end Ckl.C05
